@@ -17,7 +17,7 @@ pub fn property() -> Property {
         parts: vec![
             Part {
                 name: "games",
-                quick: 4_000,
+                quick: 8_000,
                 thorough: 100_000,
                 single_shard: false, supplementary: false,
                 run: |cfg| run_part(cfg, gen::raw_playout(300), |r| gen::play(r, ClockDomain::Board).to_game(), check_game),
@@ -25,7 +25,7 @@ pub fn property() -> Property {
             },
             Part {
                 name: "all_moves",
-                quick: 20_000,
+                quick: 60_000,
                 thorough: 1_000_000,
                 single_shard: false, supplementary: false,
                 run: |cfg| run_part(cfg, gen::raw_pos(60), |r| PosCase { fen: gen::position(r, ClockDomain::Board).fen() }, check_all_moves),
